@@ -130,33 +130,7 @@ def check(run):
     okg = bool(fcalls) and all(any(q.render(aw, at) == 'm_expired' and pol for at, pol in q.guards_at(aw, c)) for c in fcalls)
     run.check(okg, 'R4', 'expired-wait-completes', T + '::async_wait', aw.loc(), 'a wait started on an expired timer is not completed at once under the guard m_expired', 'if (m_expired) fire(success)')
     run.check(not [f for f in fl if f.kind == 'invoke'], 'R6', 'never-inline', T + '::async_wait', aw.loc(), 'async_wait invokes the handler inline', 'no inline invocation')
-    # "never earlier than the expiry": m_expired only says the timer is not queued (it fired, or its wait was cancelled);
-    # completing at once also needs the expiry to have passed
-    import p02 as _p02
-    for c in fcalls:
-        due = False
-        for at, pol in q.guards_at(aw, c):
-            ca = q.cmp_atom(at)
-            if not ca:
-                continue
-            op_ = ca[0] if pol else q.NEG[ca[0]]
-            l_, r_ = ca[1], ca[2]
-            tl, tr = q.render(aw, l_).replace('this->', ''), q.render(aw, r_).replace('this->', '')
-            if tl in ('m_expiration_time', 'expiry()') and op_ in ('<=', '<') and _p02.fresh_clock_reading(aw, r_)[0]:
-                due = True
-            if tr in ('m_expiration_time', 'expiry()') and op_ in ('>=', '>') and _p02.fresh_clock_reading(aw, l_)[0]:
-                due = True
-        run.check(due, 'R4', 'immediate-completion-only-when-due', T + '::async_wait', aw.loc(c),
-                  'async_wait completes the wait at once whenever m_expired is set, without comparing the expiry with the clock: after cancel() (which leaves the expiry unchanged) a new wait completes immediately with success although the expiry lies in the future - earlier than max(expiry, time the wait was started)',
-                  'completed at once only when the expiry is not in the future')
-    # a cancelled timer whose expiry is still ahead is put back on the queue by the new wait (typestate pairing as for re-arm)
-    fz = exp_writes(aw, False)
-    if fz:
-        adds_ = [c for c in calls(aw, 'io_context::add_timer') if c.get('args') and q.is_this(c['args'][0])]
-        run.check(all(q.must_follow(aw, z, adds_) for z in fz) and all(q.any_precedes(aw, fz, a_) for a_ in adds_) and bool(adds_), 'R4', 'unexpired-implies-queued', T + '::async_wait', aw.loc(),
-                  'async_wait marks the timer pending without queuing it (or queues it without marking it)', 'm_expired=false is paired with add_timer(this)')
-        run.check(all(any(q.render(aw, at).replace('this->', '') == 'm_expired' and pol for at, pol in q.guards_at(aw, z)) for z in fz), 'R4', 'queued-once', T + '::async_wait', aw.loc(),
-                  'async_wait queues the timer without knowing that it is not queued already (no dominating m_expired test)', 'queued only under if (m_expired)')
+    async_wait_rules(run)
 
     rn = fx.fn1(S + '::run')
     run.touch(rn)
@@ -316,6 +290,46 @@ def cancel_dequeues_rule(run):
     run.check(bool(removes) and not q.exit_reachable_under(cn, None, removes, queued), 'R4', 'cancel-dequeues-when-queued', T + '::cancel', cn.loc(),
               'with the timer queued (m_expired false) a path through cancel() returns without remove_timer(this) - e.g. when no handler is waiting: a timer that was armed but never waited on stays in the queue after it is destroyed, and run() later dereferences the dangling pointer',
               'every path with m_expired false passes remove_timer(this)')
+
+
+def async_wait_rules(run):
+    """async_wait(): immediate completion only when the expiry has passed; a cancelled timer whose expiry is ahead is put
+    back on the queue with the typestate pairing of a re-arm (shared with C12: a timer that is queued but marked expired is
+    not removed by cancel()/the destructor, and run() later dereferences it)."""
+    fx = run.fx
+    aw = fx.fn1(T + '::async_wait')
+    run.touch(aw)
+    exp_writes = _exp_writes
+    calls = _calls
+    fcalls = calls(aw, 'high_resolution_timer::fire')
+    # "never earlier than the expiry": m_expired only says the timer is not queued (it fired, or its wait was cancelled);
+    # completing at once also needs the expiry to have passed
+    import p02 as _p02
+    for c in fcalls:
+        due = False
+        for at, pol in q.guards_at(aw, c):
+            ca = q.cmp_atom(at)
+            if not ca:
+                continue
+            op_ = ca[0] if pol else q.NEG[ca[0]]
+            l_, r_ = ca[1], ca[2]
+            tl, tr = q.render(aw, l_).replace('this->', ''), q.render(aw, r_).replace('this->', '')
+            if tl in ('m_expiration_time', 'expiry()') and op_ in ('<=', '<') and _p02.fresh_clock_reading(aw, r_)[0]:
+                due = True
+            if tr in ('m_expiration_time', 'expiry()') and op_ in ('>=', '>') and _p02.fresh_clock_reading(aw, l_)[0]:
+                due = True
+        run.check(due, 'R4', 'immediate-completion-only-when-due', T + '::async_wait', aw.loc(c),
+                  'async_wait completes the wait at once whenever m_expired is set, without comparing the expiry with the clock: after cancel() (which leaves the expiry unchanged) a new wait completes immediately with success although the expiry lies in the future - earlier than max(expiry, time the wait was started)',
+                  'completed at once only when the expiry is not in the future')
+    # a cancelled timer whose expiry is still ahead is put back on the queue by the new wait (typestate pairing as for re-arm)
+    fz = exp_writes(aw, False)
+    adds_ = [c for c in calls(aw, 'io_context::add_timer') if c.get('args') and q.is_this(c['args'][0])]
+    if fz or adds_:
+        run.check(all(q.must_follow(aw, z, adds_) for z in fz) and all(q.any_precedes(aw, fz, a_) for a_ in adds_) and bool(adds_) and bool(fz), 'R4', 'unexpired-implies-queued', T + '::async_wait', aw.loc(),
+                  'async_wait puts the timer on the queue without marking it pending (m_expired stays true), or marks it without queuing it: cancel() and the destructor then believe the timer is not queued, the wait is neither aborted nor removed, and run() later dereferences a destroyed timer', 'm_expired=false is paired with add_timer(this)')
+        run.check(all(any(q.render(aw, at).replace('this->', '') == 'm_expired' and pol for at, pol in q.guards_at(aw, z)) for z in (fz or adds_)), 'R4', 'queued-once', T + '::async_wait', aw.loc(),
+                  'async_wait queues the timer without knowing that it is not queued already (no dominating m_expired test)', 'queued only under if (m_expired)')
+
 
 
 def ctor_typestate_rule(run):
